@@ -78,3 +78,5 @@ meta["checks_on_seeded_tree"] = results
 rc, out = sh("git status --short", cwd="/repo")
 meta["repo_clean_after"] = not out.strip()
 json.dump(meta, open(os.path.join(dest, "meta.json"), "w"), indent=1)
+# leave the generated Lean files as the unchanged tree's
+sh("/venv/bin/python -W ignore tools/regen.py", cwd=ROOT)
